@@ -62,6 +62,14 @@ def correspondence(ctx):
                 real = g(pos, add_nugget=False)
                 N = g._modes.shape[1]
                 S = model.spectrum(np.linalg.norm(g._modes, axis=0))
+                # hypothesis of fourier_weight_inner: the weights use the cell volume of the mode lattice, i.e. `_delta_k[d]` IS the
+                # spacing of the distinct mode coordinates along axis d (and the lattice is the full tensor grid)
+                for d_ in range(d2):
+                    u = np.unique(g._modes[d_])
+                    if len(u) != mn[d_] or not np.allclose(np.diff(u), g._delta_k[d_], rtol=1e-12, atol=0):
+                        meta.append(("fourier-cell-volume", None, name))
+                        ops.append(dict(op="gen_sphere", dim=1, s=[], a=[], z=[]))
+                        break
                 ops.append(dict(op="gen_fourier", dim=d2, N=N, X=X, S=fbits(S), dk=fbits(g._delta_k), modes=fbits(g._modes),
                                 z1=fbits(g._z_1), z2=fbits(g._z_2), pos=fbits(pos)))
                 meta.append(("fourier", (g._spectrum_factor.copy(), real), name))
@@ -103,6 +111,8 @@ def correspondence(ctx):
             lean = np.array([unbits(x) for x in r]).reshape(real.shape)
             if not np.array_equal(lean, real):
                 dis.append({"what": "sample_sphere differs from the model", "dim": o["dim"], "real": real.tolist(), "lean": lean.tolist()})
+        elif kind == "fourier-cell-volume":
+            dis.append({"what": "Fourier: _delta_k is not the spacing of the mode lattice (the weights sqrt(S*prod(delta_k)) then do not carry the cell volume)", "model": name})
         elif kind == "nugget-mismatch":
             dis.append({"what": "nugget term is not sqrt(nugget) * normal variates drawn after the modes", "model": name})
     return {"evaluations": res_k["evaluations"] + len(ops), "distinct_nontrivial": res_k["distinct_nontrivial"] + len(distinct),
@@ -158,13 +168,16 @@ def search(ctx, deep=False):
             if (name == "Linear" and dim > 1) or (name == "Circular" and dim > 2):
                 dim = 1
             configs.append((name, dim, "RandMeth"))
-    configs += [("Gaussian", 1, "Fourier"), ("Exponential", 2, "Fourier")]
+    configs += [("Gaussian", 1, "Fourier"), ("Exponential", 2, "Fourier"), ("Gaussian", 2, "Fourier-aniso"), ("Gaussian", 3, "Fourier-aniso")]
     thr = 6.0
     with warnings.catch_warnings():
         warnings.simplefilter("ignore")
         for name, dim, gen in configs:
             kw = {}
-            if dim > 1 and gen == "RandMeth":
+            aniso_fourier = gen == "Fourier-aniso"
+            if aniso_fourier:
+                gen = "Fourier"
+            if dim > 1 and (gen == "RandMeth" or aniso_fourier):
                 kw = dict(anis=[float(a) for a in rng.choice([0.5, 2.0], size=dim - 1)],
                           angles=[float(a) for a in rng.uniform(-1, 1, size=dim * (dim - 1) // 2)])
             nug = float(rng.choice([0.0, 0.2]))
@@ -183,7 +196,9 @@ def search(ctx, deep=False):
                                  "case": dict(model=repr(model), pos=pos.tolist(), seeds=int(M), gen_kw=gk, z=z.tolist())})
             else:
                 # Fourier: the exact expectation given the (deterministic) modes is the Riemann sum of the spectrum
-                gk = dict(mode_no=[32] * dim, period=[16 * model.len_scale] * dim)
+                gk = dict(mode_no=[32 if dim < 3 else 16] * dim, period=[(16 if dim < 3 else 10) * model.len_scale * (2.0 if aniso_fourier else 1.0)] * dim)
+                if dim == 3:
+                    seeds = seeds[:max(60, M // 4)]
                 vals = ensemble(gs, model, gen, gk, pos, seeds)
                 g = gs.SRF(model, generator=gen, seed=1, **gk).generator
                 iso = model.isometrize(pos)
@@ -195,15 +210,28 @@ def search(ctx, deep=False):
                         if i == j:
                             target += model.nugget
                         prod = vals[:, i] * vals[:, j]
-                        zs.append((prod.mean() - target) / (prod.std(ddof=1) / np.sqrt(M)))
+                        zs.append((prod.mean() - target) / (prod.std(ddof=1) / np.sqrt(len(seeds))))
                 # discretisation error of the periodic method: the variance captured by the mode grid must not shrink
                 # when the grid is refined (same period, twice the modes), and is within 5 % for the Gaussian spectrum
                 cap = float(np.sum(g._spectrum_factor ** 2))
-                g2 = gs.SRF(model, generator=gen, seed=1, mode_no=[64] * dim, period=gk["period"]).generator
+                g2 = gs.SRF(model, generator=gen, seed=1, mode_no=[2 * gk["mode_no"][0]] * dim, period=gk["period"]).generator
                 cap2 = float(np.sum(g2._spectrum_factor ** 2))
-                if cap2 < cap - 1e-9 * model.var or cap2 > model.var * (1 + 1e-6) or (name == "Gaussian" and abs(cap - model.var) > 0.05 * model.var):
-                    viol.append({"key": f"fourier-riemann:{name}:d{dim}", "what": "spectral mass on the mode grid does not converge to the model variance under refinement",
-                                 "case": dict(model=repr(model), mass_32=cap, mass_64=cap2, var=float(model.var))})
+                bad_mass = cap2 < cap - 1e-9 * model.var or cap2 > model.var * (1 + 1e-6)
+                expect = None
+                if name == "Gaussian":
+                    # independent oracle: the midpoint sum over the mode lattice approximates the integral of the (separable) Gaussian
+                    # spectrum over the box the lattice cells cover; lattice spacing measured from the modes themselves
+                    from scipy.special import erf
+                    ell = model.len_rescaled
+                    expect = float(model.var)
+                    for d_ in range(dim):
+                        u = np.unique(g._modes[d_])
+                        h = float(np.mean(np.diff(u)))
+                        expect *= 0.5 * (erf((u[-1] + h / 2) * ell / 2) - erf((u[0] - h / 2) * ell / 2))
+                    bad_mass = bad_mass or abs(cap - expect) > 0.01 * model.var
+                if bad_mass:
+                    viol.append({"key": f"fourier-riemann:{name}:d{dim}", "what": "spectral mass on the mode grid is not the integral of the spectrum over the lattice box / does not converge to the model variance under refinement",
+                                 "case": dict(model=repr(model), mass=cap, mass_refined=cap2, var=float(model.var), box_integral=expect)})
                 worst = float(np.max(np.abs(zs)))
                 if worst > thr:
                     viol.append({"key": f"ensemble:{gen}:{name}:d{dim}", "what": f"Fourier ensemble covariance deviates from its spectral Riemann sum by {worst:.1f} sigma",
